@@ -33,7 +33,7 @@ type Scenario struct {
 
 var registry = map[string]*Scenario{}
 
-func Register(s *Scenario) { registry[s.ID] = s }
+func Register(s *Scenario)       { registry[s.ID] = s }
 func Lookup(id string) *Scenario { return registry[id] }
 func AllIDs() []string {
 	ids := make([]string, 0, len(registry))
@@ -47,17 +47,17 @@ func AllIDs() []string {
 // ReplayFile is the replay artefact: replaying it is a pure function of the
 // file and the code.
 type ReplayFile struct {
-	Property  string     `json:"property"`
-	Seed      uint64     `json:"seed"`
-	Tier      string     `json:"tier"`
-	Invariant string     `json:"invariant"`
-	Key       string     `json:"key"`
-	Message   string     `json:"message"`
-	Choices   []uint64   `json:"choices"`
-	Trace     []string   `json:"trace"` // human-readable minimised schedule and fault trace
-	Faults    map[string]int `json:"faults_fired"`
-	Original  int        `json:"original_choice_count"`
-	MinimiseReplays int  `json:"minimise_replays"`
+	Property        string         `json:"property"`
+	Seed            uint64         `json:"seed"`
+	Tier            string         `json:"tier"`
+	Invariant       string         `json:"invariant"`
+	Key             string         `json:"key"`
+	Message         string         `json:"message"`
+	Choices         []uint64       `json:"choices"`
+	Trace           []string       `json:"trace"` // human-readable minimised schedule and fault trace
+	Faults          map[string]int `json:"faults_fired"`
+	Original        int            `json:"original_choice_count"`
+	MinimiseReplays int            `json:"minimise_replays"`
 }
 
 type harnessPanic struct {
@@ -83,23 +83,23 @@ func exec1(s *Scenario, r *Run) (v *Violation, aborted string, hp *harnessPanic)
 
 type batchResult struct {
 	runs, nontrivial, aborted int
-	fps       map[uint64]struct{}
-	ntfps     map[uint64]struct{}
-	faults    map[string]int
-	probes    map[string]int
-	stats     map[string]int
-	simNS     int64
-	ngrams    map[string]struct{}
-	kinds     map[string]struct{}
-	abortWhy  map[string]int
-	samples   []map[string]interface{}
-	known     map[string]*Violation
-	knownN    map[string]int
-	viol      *Violation
-	violRun   *Run
-	hp        *harnessPanic
-	hpSeed    uint64
-	digest    uint64
+	fps                       map[uint64]struct{}
+	ntfps                     map[uint64]struct{}
+	faults                    map[string]int
+	probes                    map[string]int
+	stats                     map[string]int
+	simNS                     int64
+	ngrams                    map[string]struct{}
+	kinds                     map[string]struct{}
+	abortWhy                  map[string]int
+	samples                   []map[string]interface{}
+	known                     map[string]*Violation
+	knownN                    map[string]int
+	viol                      *Violation
+	violRun                   *Run
+	hp                        *harnessPanic
+	hpSeed                    uint64
+	digest                    uint64
 }
 
 func newBatch() *batchResult {
